@@ -437,7 +437,7 @@ pub fn replay(v: &Value) -> Vec<Failure> {
         let n = v["workers"].as_u64().unwrap_or(1) as usize;
         let h: Vec<usize> = v["history"].as_array().map(|a| a.iter().filter_map(|l| LETTERS.iter().position(|x| Some(*x) == l.as_str())).collect()).unwrap_or_default();
         let (_, fails) = check_history(n, &h);
-        fails.into_iter().map(|(signature, detail)| Failure { signature, case: v.clone(), detail }).collect()
+        fails.into_iter().map(|(signature, detail)| Failure { signature, case: v.clone(), detail, hash: 0 }).collect()
     };
     std::env::set_current_dir("/").unwrap();
     let _ = std::fs::remove_dir_all(&root);
